@@ -75,6 +75,17 @@ var c14Invalid = []string{
 	"\xc2\x20", "\xe2\x80\x20", "\xf0\x9f\x98\x24", "\xe2\x3c\xa8", // truncated then ASCII (space / metacharacter)
 }
 
+// incomplete sequences and the continuation bytes that would complete them: with a control character in between
+// (which validation removes) the two halves must NOT join into a new character.  C2+80 = U+0080 (control),
+// C2+85 = NEL (control and white space), C2+A0 = NBSP, E1 9A+80 = U+1680, E2 80+A8 = U+2028, E2 80+8B = U+200B,
+// E3 80+80 = U+3000 (white space), C2+A9 = ©, E2 82+AC = €, F0 9F 98+80 = an emoji, C2+BC / EF BC+9C = "¼" / fullwidth "<".
+var c14SplitPairs = [][2]string{
+	{"\xc2", "\x80"}, {"\xc2", "\x85"}, {"\xc2", "\xa0"}, {"\xc2", "\x9f"}, {"\xc2", "\xa9"}, {"\xc2", "\xbc"},
+	{"\xe1\x9a", "\x80"}, {"\xe1", "\x9a\x80"}, {"\xe2\x80", "\xa8"}, {"\xe2", "\x80\xa9"}, {"\xe2\x80", "\x8b"}, {"\xe2\x80", "\x80"},
+	{"\xe3\x80", "\x80"}, {"\xe3", "\x80\x80"}, {"\xe2\x82", "\xac"}, {"\xef\xbc", "\x9c"}, {"\xef\xbf", "\xbd"},
+	{"\xf0\x9f\x98", "\x80"}, {"\xf0\x9f", "\x98\x80"}, {"\xf0", "\x9f\x98\x80"}, {"\xc3", "\xa9"},
+}
+
 var c14EnumAlphabet = []string{"a", " ", "\t", "\r", "\x00", "$", "\u00a0", "\u0085", "\u3000", "\x80", "\xa0", "\xc2", "\xe3", "\xff", "\u200b", "<"}
 
 // ---------------------------------------------------------------------------------------------
@@ -270,17 +281,36 @@ func c14RandomQuery(r *Rng, idx int) string {
 		m := string(c14Metas[r.Intn(len(c14Metas))])
 		w := Pick(r, c14Words)
 		shapes := []string{s, s + w, w + s, w + s + w, s + w + s, w + s + t + w, s + t, w + " " + s + " " + w, m + s, s + m, w + s + m, s + m + t,
-			w + m + s, s + s + w + t + t, " " + s + w, w + s + " ", "\xc2" + s, s + "\xa0", w + t + s + w + s + t}
+			w + m + s, s + s + w + t + t, " " + s + w, w + s + " ", "\xc2" + s, s + "\xa0", w + t + s + w + s + t, "\xc2" + s + "\xa0", "\xc2" + s + "\x80"}
 		return Pick(r, shapes)
-	case x < 80: // byte length at the limit
+	case x < 66: // a control character (or several) between the two halves of a split multi-byte sequence
+		var sb strings.Builder
+		for k := r.Range(1, 3); k > 0; k-- {
+			if r.Chance(1, 2) {
+				sb.WriteString(Pick(r, c14Words))
+			} else if r.Chance(1, 4) {
+				sb.WriteString(string(Pick(r, c14Spaces)))
+			}
+			p := Pick(r, c14SplitPairs)
+			sb.WriteString(p[0])
+			for j := r.Range(1, 2); j > 0; j-- {
+				sb.WriteString(string(Pick(r, c14Controls()))) // incl. \t, \n (kept) and U+0080..U+009F (two bytes, C2 xx)
+			}
+			sb.WriteString(p[1])
+			if r.Chance(1, 2) {
+				sb.WriteString(Pick(r, c14Words))
+			}
+		}
+		return sb.String()
+	case x < 82: // byte length at the limit
 		core := c14Concat(r, r.Intn(20), c14BenignAtom)
 		if r.Chance(1, 6) {
 			core = c14Concat(r, r.Intn(20), c14Atom)
 		}
 		n := Pick(r, []int{998, 999, 999, 1000, 1000, 1000, 1001, 1001, 1002, 1003})
 		return c14PadTo(r, core, n)
-	case x < 92: // invalid bytes whose replacement (3 bytes each) brings the *output* near the limit
-		target := Pick(r, []int{996, 998, 999, 1000, 1001, 1002, 1002, 1003, 1005}) // output byte length aimed at
+	case x < 93: // many invalid bytes: were each written as U+FFFD (3 bytes) the *output* would be near / over the limit (K01)
+		target := Pick(r, []int{996, 998, 999, 1000, 1001, 1002, 1002, 1003, 1005}) // 3-bytes-each output length aimed at
 		k := r.Range(300, 334)                                                      // number of invalid bytes
 		if 3*k > target {
 			k = target / 3
@@ -426,6 +456,23 @@ func c14ShouldAccept(q string) bool {
 	return false
 }
 
+// c14WouldJoin: deleting the control characters of q without touching the other bytes gives a text with fewer
+// characters than q has non-control characters, i.e. bytes that are invalid in q would join into a character
+// (coverage tag only: the inputs on which "copy the invalid byte" and "replace the invalid byte" differ in kind).
+func c14WouldJoin(q string) bool {
+	var sb strings.Builder
+	n := 0
+	for i := 0; i < len(q); {
+		r, w := utf8.DecodeRuneInString(q[i:])
+		if !unicode.IsControl(r) {
+			sb.WriteString(q[i : i+w])
+			n++
+		}
+		i += w
+	}
+	return utf8.RuneCountInString(sb.String()) != n
+}
+
 func c14MonitorQuery(mon *Mon, opIdx int, q, out string, err error) {
 	det := func(extra string) map[string]interface{} {
 		return map[string]interface{}{"op": opIdx, "input": c14Short(q), "input_len": len(q), "output": c14Short(out), "output_len": len(out),
@@ -441,6 +488,9 @@ func c14MonitorQuery(mon *Mon, opIdx int, q, out string, err error) {
 	}
 	if len(q) >= 999 && len(q) <= 1001 {
 		mon.Tag("len-999..1001")
+	}
+	if c14WouldJoin(q) {
+		mon.Tag("split-join") // removing the control characters byte-wise would join invalid bytes into a new character
 	}
 	if err != nil {
 		mon.Tag("err-" + c14ErrKind(err))
